@@ -29,7 +29,6 @@ payload lists (it starts a multiprocessing.Manager per call, so not per schedule
 """
 from __future__ import annotations
 
-import itertools
 import random
 import sys
 import threading
@@ -388,6 +387,7 @@ def unit(u):
     fails = []
     orders = set()
     sample = None
+    truncated = False
     for (fs, info), script in explore(lambda ch: run_schedule(ep, branch, mode, n, k, mask, ch)):
         cases += 1
         orders.add((tuple(info['yield_order']), tuple(info['completion_order']), tuple(info['snapshots'])) if mode == 'real'
@@ -400,6 +400,10 @@ def unit(u):
                               witness=dict(branch=branch, as_completed=mode, payloads=n, max_workers=k,
                                            raising=[i for i in range(n) if mask >> i & 1], schedule=script,
                                            yielded=info['yield_order'])))
+        if len(fails) >= 60:
+            # already refuted: a loop that loses track of its futures makes the choice tree explode, do not walk all of it
+            truncated = True
+            break
     # keep the smallest witness per class only
     best = {}
     for f in fails:
@@ -407,7 +411,7 @@ def unit(u):
         if b is None or len(repr(f['witness'])) < len(repr(b['witness'])):
             best[f['cls']] = f
     nfail = Counter(f['cls'] for f in fails)
-    return dict(unit=u, cases=cases, orders=len(orders), fails=list(best.values()), nfail=dict(nfail), sample=sample)
+    return dict(unit=u, cases=cases, orders=len(orders), fails=list(best.values()), nfail=dict(nfail), sample=sample, truncated=truncated)
 
 
 def run_units(chunk):
@@ -459,7 +463,7 @@ def exhaustive_items(mode, nmax, name, extra_n=None):
                       'each task run once, loop terminates without raising. distinct = distinct (branch, n, workers, raising '
                       'subset, yield order' + (', completion order, snapshot sizes' if mode == 'real' else '') + ') with n>=2'
                       + ('' if mode == 'real' else '; submit-everything branch counted once, not per worker count'),
-                 exhaustive=True, samples=samples, failures=fails,
+                 exhaustive=not any(r['truncated'] for r in res), samples=samples, failures=fails,
                  note=f'schedule-exhaustive run of the real executor_pmap, as_completed: {mode}')
 
 
@@ -588,6 +592,7 @@ def thread_samples(chunk):
     from tatsu.parproc.task import taskproc
     ep = real_loop()
     res = []
+    blocked = 0
     for (cls_name, n, k, mask, dseed) in chunk:
         rng = random.Random(dseed)
         delays = [rng.choice((0.0, 0.0005, 0.001, 0.002, 0.004)) for _ in range(n)]
@@ -613,6 +618,10 @@ def thread_samples(chunk):
         t.start()
         if not done.wait(20):
             res.append((('loop-blocked', 'no termination within 20 s'), (cls_name, n, k, mask, dseed), []))
+            stop.set()
+            blocked += 1
+            if blocked >= 2:  # refuted already; every further blocked sample costs the full timeout
+                break
             continue
         fs = check_results(pays, out, err)
         res.append((fs[0] if fs else None, (cls_name, n, k, mask, dseed), [canon(r)[0] for r in out]))
@@ -682,6 +691,13 @@ def run(tier, seed, info):
     t0 = Budget(90 if tier == 'quick' else 900)
     quick = tier == 'quick'
     items = []
+    try:
+        real_loop()
+    except Exception as e:  # the loop is no longer where this driver looks for it: say so, do not guess
+        from vlib.runner import Item
+        return [Item(id=f'{PROP}/B:schedules-model', kind='B', status='undecided', function='tatsu/parproc/pmap.py:executor_pmap',
+                     note='bounded: cannot reach executor_pmap through the closure of active_pmap()',
+                     detail=f'{type(e).__name__}: {e}', extra=dict(cases=0, distinct_nontrivial=0, exhaustive=False))]
     items += exhaustive_items('model', 5 if quick else 6, 'schedules-model')
     items += exhaustive_items('real', 3 if quick else 4, 'schedules-real-as-completed', extra_n=4 if quick else 5)
     items += taskproc_items()
@@ -708,7 +724,7 @@ def main(argv=None):
         if it.status == 'refuted':
             print(f'         witness: {it.witness}\n         detail: {it.detail[:400]}\n         failing cases: {it.extra.get("failing_cases")}')
     bad = [i for i in items if i.status != 'clean']
-    print(f'C18 bounded [{tier}]: {len(items)} items, {len(bad)} refuted, {sum(i.extra.get("cases", 0) for i in items)} cases, {time.time() - t:.1f}s')
+    print(f'C18 bounded [{tier}]: {len(items)} items, {len(bad)} refuted, {sum({i.id.split("/")[1]: i.extra.get("cases", 0) for i in items}.values())} cases, {time.time() - t:.1f}s')
     return 1 if bad else 0
 
 
